@@ -997,6 +997,38 @@ func c03edits() []c03edit {
 			}
 			return false
 		}},
+		{"one-placeholder-sibling-of-two-placeholder-segment", true, func(d jm) bool {
+			// "/toys/{kind}.{fmt}" next to "/toys/{one}": the segments differ in their literal text,
+			// so the paths do not overlap
+			paths := jo(d["paths"])
+			for _, p := range jkeys(paths) {
+				segs := strings.Split(p, "/")
+				last := segs[len(segs)-1]
+				if len(c03placeholders(last)) < 2 {
+					continue
+				}
+				np := strings.Join(segs[:len(segs)-1], "/") + "/{one}"
+				if _, exists := paths[np]; exists {
+					return false
+				}
+				item := jm{}
+				for _, m := range c03methods {
+					if jo(jo(paths[p])[m]) != nil {
+						item[m] = jm{"operationId": m + "One", "responses": okResp(),
+							"parameters": []any{jm{"name": "one", "in": "path", "required": true, "type": "string"}}}
+					}
+				}
+				// path-level placeholders of the prefix must stay declared: copy the path-item parameters
+				// that name placeholders of the prefix
+				prefixPH := c03placeholders(strings.Join(segs[:len(segs)-1], "/"))
+				if len(prefixPH) > 0 {
+					return false
+				}
+				paths[np] = item
+				return true
+			}
+			return false
+		}},
 		{"literal-sibling-of-templated-path", true, func(d jm) bool {
 			// "/pets/{id}" next to "/pets/X": different paths (a literal segment is not a placeholder)
 			paths := jo(d["paths"])
